@@ -1371,7 +1371,7 @@ loop:
 		case FrameSettings:
 			st := fr.Body().(*Settings)
 			if !st.IsAck() { // if it has ack, just ignore
-				c.handleSettings(st)
+				c.handleSettings(fr, st)
 			}
 		case FrameWindowUpdate:
 			c.addWindow(0, int32(fr.Body().(*WindowUpdate).Increment()))
@@ -1432,15 +1432,19 @@ func (c *Conn) writePing() error {
 	return err
 }
 
-func (c *Conn) handleSettings(st *Settings) {
-	st.CopyTo(&c.serverS)
+func (c *Conn) handleSettings(in *FrameHeader, st *Settings) {
+	// A setting the frame does not mention keeps the value the server gave it
+	// before (RFC 7540 6.5.3), so the frame is applied on top of what we hold
+	// rather than replacing it with a frame's worth of defaults. The payload
+	// has been validated by Deserialize already.
+	_ = c.serverS.Read(in.payload)
 
 	atomic.StoreUint32(&c.maxStreams, c.serverS.MaxConcurrentStreams())
 	atomic.StoreUint32(&c.maxFrameSize, c.serverS.MaxFrameSize())
 
 	// The encoder belongs to the write loop, so the new table size is handed
 	// over rather than applied here.
-	atomic.StoreUint32(&c.encTableSize, st.HeaderTableSize())
+	atomic.StoreUint32(&c.encTableSize, c.serverS.HeaderTableSize())
 
 	// A change to SETTINGS_INITIAL_WINDOW_SIZE applies to every stream that is
 	// already open, as a delta on what it has left.
